@@ -6,5 +6,11 @@ CHECKS = {
   "text": "Gray conversions, popcount and Hamming distance are proved for ALL 64-bit operands below 2^62 from the real shift/xor/while source (bv64 VCs, z3). PSK labelling is proved per order with a symbolic phase offset by symbolically executing PSK.__init__; QAM labelling and the geometric neighbour claim range over a finite configuration set and are decided by complete enumeration on the real code. setPhaseOffset and QAM>=64 are refuted and listed as known findings.",
   "note": "Trusts z3, the pyvc generator (cross-checked natively), numba compiling count_bits faithfully, numpy element-wise ufunc semantics. Floats ideal-real in the PSK proof (only congruence of cos/sin used).",
  },
+ "C13": {
+  "category": "proof",
+  "technique": "contract-based deductive verification: symbolic execution of the real model classes -> z3 nonlinear real VCs with uninterpreted log10/pow10 and ground axiom instances; bounded run-time contract check as float cross-check",
+  "text": "All path-loss classes are constructed through their real __init__ and their real methods executed with SYMBOLIC parameters/distances; monotonicity, linear=10^(-dB/10) in (0,1], inverse pairs, the raise/clamp policy, the free-space class invariant after arbitrary setter histories (inductive step + all histories up to length 3), Friis within 0.01 dB, METIS wall handling, Okumura-Hata range validation and the sector antenna pattern are discharged for all real inputs. A bounded native sweep re-checks the same contracts in binary64.",
+  "note": "Ideal-real arithmetic; log10/pow10 uninterpreted with listed axioms (monotone, inverse pair, product-rule instances, two numeric enclosures checked natively). Random shadowing excluded.",
+ },
 }
 NOT_APPLICABLE = {}
